@@ -12,7 +12,7 @@ SPEC = {
         {"kind": "CFG", "type": "(kind * list (op * obs))", "eval": "check_cfg", "per_shard": 25},
     ],
     "classes": {1: "enable-cache-before-first-use-panics"},
-    "n_quick": 700, "n_thorough": 40000,
+    "n_quick": 700, "n_thorough": 2800,
     "level": "proof",
     "what_violation": "a cache operation panics / a load does not return the cached-or-loader value the reference cache prescribes",
     "rule": ("operation histories (1-40 operations: load_many with duplicate/empty key lists and loader answers that omit keys, "
